@@ -144,4 +144,18 @@ CLAIMS = {
         "technique": "edge-dominance analysis on the radix parameter, path-cut reachability between double producers and "
                      "return, constant-table comparison, cast inventory, byte-sequence constant propagation",
     },
+    "C20": {
+        "text": "Claimed: the complete outcome maps of every is_x / as_x pair on Value and Number, extracted by constant "
+                "propagation over all 11 Value kinds and the integer boundary payloads (0, 1, i64::MAX, i64::MAX+1, "
+                "u64::MAX, -1, i64::MIN), agree (is_x true exactly where as_x is Some; is_f64/as_f64 with the documented "
+                "integer->double asymmetry); as_i64/as_u64 return the stored integer exactly when in range; as_name is Some "
+                "exactly for String/Symbol/Keyword; From<i8..i64> stores n>=0 as PosInt(n) and n<0 as NegInt(n) on the "
+                "boundary values of every width, unsigned as PosInt, floats as Float; each PartialEq impl between Value and "
+                "a primitive calls exactly one eq_* helper of the matching class with From-widening only, both operand "
+                "orders use the same helper and the helper compares through the matching as_* accessor. Preservation of "
+                "string/byte/char payloads as values is not decided.",
+        "note": _TB + "std's integer From impls are lossless.",
+        "technique": "outcome-map extraction by conditional constant propagation over enum variants and boundary "
+                     "constants; structural audit of macro-generated impls",
+    },
 }
